@@ -77,6 +77,7 @@ def extract(objs, src):
             body = [c for c in node.get("inner", []) or [] if c.get("kind") == "CompoundStmt"]
             methods.append(dict(id=node["id"], name=node.get("name"), parent=node.get("parentDeclContextId"),
                                 prev=node.get("previousDecl"), body=body[0] if body else None,
+                                params=[c.get("name") for c in node.get("inner", []) or [] if c.get("kind") == "ParmVarDecl"],
                                 enclosing=[p["id"] for p in parents if p.get("kind") in ("CXXRecordDecl", "ClassTemplateSpecializationDecl")][-1:],
                                 file=src, type=node.get("type", {}).get("qualType")))
 
@@ -90,7 +91,7 @@ def load(repo=None):
     key = C.repo_hash(repo)
     os.makedirs(C.CACHE, exist_ok=True)
     tag = hashlib.sha256(os.path.realpath(repo).encode()).hexdigest()[:6]
-    cache = os.path.join(C.CACHE, f"ast-{tag}-{key}-v3.pkl")
+    cache = os.path.join(C.CACHE, f"ast-{tag}-{key}-v4.pkl")
     if os.path.exists(cache):
         return pickle.load(open(cache, "rb"))
     srcs = sorted(os.path.join(repo, "src", f) for f in os.listdir(os.path.join(repo, "src")) if f.endswith(".cpp"))
@@ -113,7 +114,7 @@ def load(repo=None):
             if m["body"] is None or par is None or par not in p["classes"]:
                 continue
             cname = p["classes"][par]["name"]
-            meth.append(dict(cls=cname, name=m["name"], body=m["body"], file=m["file"], type=m["type"],
+            meth.append(dict(cls=cname, name=m["name"], body=m["body"], file=m["file"], type=m["type"], params=m.get("params", []),
                              ids={mm["id"]: p["classes"][decl_parent[mm["id"]]]["name"] for mm in p["methods"]
                                   if decl_parent.get(mm["id"]) in p["classes"]}))
     # method bodies: keep one per (class, name, type)
